@@ -711,6 +711,13 @@ pub fn run_point(root: &Path, p: &Point) -> PointResult {
             if is_new && matches!(p.op, OpKind::Ensure | OpKind::GouAccept | OpKind::GouPromote | OpKind::GouReplace | OpKind::SetTemp | OpKind::PutTemp) && e.mode != 0o444 {
                 add("C19", "c19:mode-not-0444", format!("{} published by the library has mode {:o}, expected 0444 (umask {:o}) at {}", path, e.mode, p.umask, desc));
             }
+            // placement: directly in a plain write cache, in one of the key's two shards otherwise
+            if let Some((k, _)) = p.writer {
+                let ok = level_paths(Path::new(""), "W", k).iter().any(|d| d.join(KEY).to_string_lossy() == path);
+                if !ok {
+                    add("C13", "c13:misplaced", format!("{} is not where a {:?} write cache stores this key, at {}", path, k, desc));
+                }
+            }
             if e.val.is_none() {
                 add("C13", "c13:writer-garbage", format!("{} in the write cache is not a complete value ({} bytes) at {}", path, e.size, desc));
             }
